@@ -114,6 +114,13 @@ func LoadProgram(repoDir string, overlay map[string][]byte, patterns ...string) 
 			}
 		}
 	}
+	// instantiations of the repository's generic functions and methods (created on demand by the
+	// SSA builder for the type arguments that occur in the program)
+	for fn := range ssautil.AllFunctions(prog) {
+		if fn.Origin() != nil && len(fn.TypeArgs()) > 0 && fn.Blocks != nil && p.InModule(fn) {
+			addFn(fn)
+		}
+	}
 	return p, nil
 }
 
